@@ -306,6 +306,61 @@ theorem stateSync_only_expired (w : World) (pc : PeerCfg) (pre : PinMap) (c : Na
         · exact Or.inr ⟨p, List.mem_cons_of_mem _ hp, hpc, hpe⟩
 
 
+/-! ### at most one member re-pins a CID when a peer is declared failed -/
+
+/-- A member only logs a pin for a CID it is closest to. -/
+theorem onAlert_log_closest (w : World) (pc : PeerCfg) (f : Nat) (ch : Chosen) (pre : PinMap) (q : Pin)
+    (h : C04.LogEntry.logPin q ∈ (onAlert w pc f ch pre).log) : isClosest w pc.self (some f) q.cid = true := by
+  unfold onAlert at h
+  split_ifs at h
+  · cases h
+  · suffices hgen : ∀ (l : List Pin) (acc : Acc),
+        C04.LogEntry.logPin q ∈ (l.foldl (fun acc pin =>
+          if pin.allocs.contains f && isClosest w pc.self (some f) pin.cid then repin pc f ch acc pin else acc) acc).log →
+        C04.LogEntry.logPin q ∈ acc.log ∨ isClosest w pc.self (some f) q.cid = true by
+      rcases hgen pre { st := pre, log := [] } h with h0 | h1
+      · cases h0
+      · exact h1
+    intro l
+    induction l with
+    | nil => intro acc hl; exact Or.inl hl
+    | cons x t ih =>
+      intro acc hl
+      rw [List.foldl_cons] at hl
+      rcases ih _ hl with h0 | h1
+      · by_cases hx : (x.allocs.contains f && isClosest w pc.self (some f) x.cid) = true
+        · rw [if_pos hx] at h0
+          unfold repin at h0
+          simp only [List.mem_append] at h0
+          rcases h0 with h0 | h0
+          · exact Or.inl h0
+          · right
+            rcases C04.lshape_pinOp { pc.base with follower := pc.follower } acc.st { x with allocs := [] } [f] (ch x.cid) with hl' | ⟨q', hq', hl'⟩
+            · rw [hl'] at h0; cases h0
+            · rw [hl'] at h0
+              simp only [List.mem_singleton, C04.LogEntry.logPin.injEq] at h0
+              subst h0
+              simp only [Bool.and_eq_true] at hx
+              have : q.cid = x.cid := hq'
+              rw [this]; exact hx.2
+        · rw [if_neg hx] at h0; exact Or.inl h0
+      · exact Or.inr h1
+
+/-- Two different trusted members never both log a pin for the same CID in one alert round
+    (distinct hashes): the re-pin is done by at most one surviving peer. -/
+theorem alert_at_most_one_repinner (w : World) (f : Nat) (a b : PeerCfg) (cha chb : Chosen) (sa sb : PinMap)
+    (qa qb : Pin) (hcid : qa.cid = qb.cid)
+    (ha : a.self ∈ w.members.map (·.1)) (hb : b.self ∈ w.members.map (·.1))
+    (hfa : a.self ≠ f) (hfb : b.self ≠ f) (hta : a.self ∉ w.untrusted) (htb : b.self ∉ w.untrusted)
+    (hdist : w.peerHash a.self = w.peerHash b.self → a.self = b.self)
+    (hla : C04.LogEntry.logPin qa ∈ (onAlert w a f cha sa).log)
+    (hlb : C04.LogEntry.logPin qb ∈ (onAlert w b f chb sb).log) : a.self = b.self := by
+  have h1 := onAlert_log_closest w a f cha sa qa hla
+  have h2 := onAlert_log_closest w b f chb sb qb hlb
+  rw [hcid] at h1
+  exact closest_at_most_one w (some f) qb.cid a.self b.self ha hb
+    (by simpa using hfa) (by simpa using hfb) hta htb hdist h1 h2
+
 /-! Non-vacuity: three members with distinct hashes; exactly one passes `isClosest` for the CID. -/
 private def exW : World := { members := [(0, 12), (1, 7), (2, 33)], cidHash := [(5, 9)], untrusted := [] }
 example : isClosest exW 0 (some 1) 5 = true ∧ isClosest exW 2 (some 1) 5 = false ∧
